@@ -1,3 +1,5 @@
+//go:debug cryptocustomrand=0
+
 package worlds
 
 import (
